@@ -25,7 +25,7 @@ def run_case(case, rng):
     from mon.gen import build as Bd
 
     n_max = 8 if case.tier == "thorough" and rng.random() < 0.3 else 5
-    gamma = rng.choice([0.5, 0.9, 0.95, 0.99])
+    gamma = rng.choice([0.5, 0.9, 0.95, 0.99] * 3 + [0.0, 0.01])      # the lower end point occasionally
     sticky = gamma == 0.99 and rng.random() < 0.7
     sp = G.random_spec(rng, "proper", n_max=(3 if sticky else n_max), a_max=(2 if sticky else 3), uniform_actions=True,
                        allow_implicit=False, gamma=gamma, allow_dup_actions=False,
@@ -46,7 +46,21 @@ def run_case(case, rng):
                 sp.R[(s_, a_, others[0])] = -1.0 * (sp.meta.get("reward_scale") or 1.0)
     G.restrict_to_closure(sp, rng)
     sp.init = [(s, p) for s, p in sp.init if p > 0]
-    mdp = Bd.build(sp, rng.choice(["subclass", "quicktabular"]))
+    rep = rng.choice(["subclass", "quicktabular", "from_matrices_own_order"])
+    if rep == "from_matrices_own_order":
+        # the MDP handed over as matrices, with the states and actions listed in the caller's own (unsorted) order
+        from msdm.core.mdp import TabularMarkovDecisionProcess
+        from mon.ref import mdp as Rf
+        S0, A0 = list(sp.states), list(sp.action_universe())
+        rng.shuffle(S0)
+        rng.shuffle(A0)
+        a0 = Rf.Arr(sp, states=S0, actions=A0)
+        mdp = TabularMarkovDecisionProcess.from_matrices(
+            state_list=tuple(S0), action_list=tuple(A0), initial_state_vec=a0.init.copy(), transition_matrix=a0.T.copy(),
+            action_matrix=a0.avail.astype(float), reward_matrix=a0.R.copy(),
+            absorbing_state_vec=a0.flag.copy(), discount_rate=sp.gamma)
+    else:
+        mdp = Bd.build(sp, rep)
     S = list(mdp.state_list)
     A = list(mdp.action_list)
     if set(S) != set(sp.states):
@@ -59,7 +73,7 @@ def run_case(case, rng):
     tolv = rng.choice([1e-3, 1e-6])
     seed = rng.choice([0, 1, 7, rng.randrange(2 ** 31)])
     case.family = "proper-uniform"
-    case.params = dict(gamma=gamma, n=len(S), actions=len(A), m=m, episodes=episodes, tolerance=tolv, seed=seed,
+    case.params = dict(rep=rep, gamma=gamma, n=len(S), actions=len(A), m=m, episodes=episodes, tolerance=tolv, seed=seed,
                        rmax=rmax)
     exp = []
     state = dict(ep_steps=0, prev=None, episodes=0)
